@@ -40,6 +40,10 @@ pub struct Spec {
     pub rp: usize,
     /// operator branches, tightest first
     pub branches: Vec<Branch>,
+    /// how the operator rule is embedded: 0 `s: e`, 1 `s: (e SEMI)*`, 2 `e` is the start rule,
+    /// 3 `e` is a part (entry point parse_e)
+    pub embed: u8,
+    pub semi: Option<usize>,
 }
 
 /// Build the grammar: `s: e; e: <operator branches and atoms>`
@@ -90,6 +94,8 @@ pub fn build_grammar(d: &mut Dice<'_>, max_branches: usize) -> (Grammar, Spec) {
         // decorations that must not change the grouping: a leading predicate that holds (`?t`, or
         // `?n` answered with true by the harness) and a trailing semantic action
         match d.below(8) {
+            // a rename (to the rule's own name) in front of the left operand
+            5 if b.kind != Kind::Prefix => items.insert(0, Regex::Rename("e".into())),
             6 => items.insert(0, Regex::Pred(None)),
             7 => items.insert(0, Regex::Pred(Some(1 + alts.len() as u32))),
             _ => {}
@@ -108,16 +114,30 @@ pub fn build_grammar(d: &mut Dice<'_>, max_branches: usize) -> (Grammar, Spec) {
     }
     right.sort();
     right.dedup();
+    // embedding of the operator rule and an optional skipped token (drawn last, so that the
+    // operator part of a grammar is stable under shrinking)
+    let embed = [0u8, 1, 3][d.below(3)];
+    let semi = if embed == 1 { Some(tok("SEMI".into())) } else { None };
+    let ws = if d.chance(1, 3) { Some(tok("WS".into())) } else { None };
+    let s_body = match embed {
+        0 => Regex::Ref(1),
+        1 => Regex::Star(Box::new(Regex::Paren(Some(Box::new(Regex::Concat(vec![Regex::Ref(1), Regex::Tok(semi.unwrap(), false)])))))),
+        _ => Regex::Tok(atom, false),
+    };
     let g = Grammar {
         tokens,
-        skip: vec![],
+        skip: ws.into_iter().collect(),
         right,
-        start: 0,
-        parts: vec![],
-        rules: vec![Rule { name: "s".into(), elided: false, body: Some(Regex::Ref(1)) }, Rule { name: "e".into(), elided: false, body: Some(Regex::Alt(alts)) }],
+        start: if embed == 2 { 1 } else { 0 },
+        parts: match embed {
+            2 => vec![0],
+            3 => vec![1],
+            _ => vec![],
+        },
+        rules: vec![Rule { name: "s".into(), elided: false, body: Some(s_body) }, Rule { name: "e".into(), elided: false, body: Some(Regex::Alt(alts)) }],
         order: None,
     };
-    (g, Spec { atom, lp, rp, branches })
+    (g, Spec { atom, lp, rp, branches, embed, semi })
 }
 
 /// Recover the spec from the grammar model (for replays and shrunk grammars).
@@ -128,7 +148,7 @@ pub fn spec_from_grammar(g: &Grammar) -> Option<Spec> {
     let mut branches = vec![];
     for a in alts {
         let Regex::Concat(items) = a else { continue };
-        let items: Vec<Regex> = items.iter().filter(|r| !matches!(r, Regex::Pred(_) | Regex::Action(_))).cloned().collect();
+        let items: Vec<Regex> = items.iter().filter(|r| !matches!(r, Regex::Pred(_) | Regex::Action(_) | Regex::Rename(_))).cloned().collect();
         let is_e = |r: &Regex| *r == Regex::Ref(1);
         let ops_of = |r: &Regex| -> Option<Vec<usize>> {
             match r {
@@ -153,7 +173,22 @@ pub fn spec_from_grammar(g: &Grammar) -> Option<Spec> {
         b.right = !b.ops.is_empty() && b.ops.iter().all(|t| g.right.contains(t)) && matches!(b.kind, Kind::Infix | Kind::Ternary);
         branches.push(b);
     }
-    Some(Spec { atom, lp, rp, branches })
+    let semi = find("SEMI");
+    let embed = if g.start == 1 {
+        2
+    } else if g.parts.contains(&1) {
+        3
+    } else if semi.is_some() && matches!(g.rules[0].body, Some(Regex::Star(_))) {
+        1
+    } else if g.rules[0].body == Some(Regex::Ref(1)) {
+        0
+    } else {
+        return None;
+    };
+    if g.start != 0 && g.start != 1 {
+        return None;
+    }
+    Some(Spec { atom, lp, rp, branches, embed, semi })
 }
 
 #[derive(Clone, Debug, PartialEq, Eq, Hash)]
@@ -259,8 +294,7 @@ impl E {
         }
     }
     pub fn expected_tree(&self, s: &Spec) -> ITree {
-        let mut n = 0;
-        ITree::Node("s".into(), vec![self.itree(s, &mut n)])
+        expected_embedded(s, std::slice::from_ref(self))
     }
     fn n_ops(&self) -> usize {
         match self {
@@ -268,6 +302,26 @@ impl E {
             E::Paren(x) => x.n_ops(),
             E::Op(_, _, xs) => 1 + xs.iter().map(|x| x.n_ops()).sum::<usize>(),
         }
+    }
+}
+
+/// the tree for a sequence of expressions under the grammar's embedding of the operator rule
+pub fn expected_embedded(s: &Spec, es: &[E]) -> ITree {
+    let mut n = 0;
+    match s.embed {
+        1 => {
+            let mut ch = vec![];
+            for e in es {
+                ch.push(e.itree(s, &mut n));
+                ch.push(ITree::Tok(s.semi.unwrap(), n));
+                n += 1;
+            }
+            ITree::Node("s".into(), ch)
+        }
+        // a left-recursive start rule: the root carries the rule's name and holds the expression
+        2 => ITree::Node("e".into(), vec![es[0].itree(s, &mut n)]),
+        3 => ITree::Node("part".into(), vec![es[0].itree(s, &mut n)]),
+        _ => ITree::Node("s".into(), vec![es[0].itree(s, &mut n)]),
     }
 }
 
@@ -479,10 +533,36 @@ impl LabProp for P07 {
                 out.push(Req::new(gi, keys[d.below(keys.len())].clone()));
             }
         }
+        // embeddings: statement sequences `e SEMI e SEMI ...`, entry point of the part
+        if s.embed == 1 {
+            let semi = s.semi.unwrap();
+            let singles: Vec<Vec<usize>> = out.iter().map(|r| r.tokens.clone()).collect();
+            for (i, r) in out.iter_mut().enumerate() {
+                let mut t = vec![];
+                let n = 1 + i % 3;
+                for k in 0..n {
+                    let pick = if k == 0 { r.tokens.clone() } else { singles[d.below(singles.len())].clone() };
+                    if t.len() + pick.len() > 40 {
+                        break;
+                    }
+                    t.extend(pick);
+                    t.push(semi);
+                }
+                r.tokens = t;
+            }
+            out.push(Req::new(gi, vec![]));
+        }
         for (i, r) in out.iter_mut().enumerate() {
             r.enc = (i % 2) as u8;
             // every `?n` holds
             r.pmode = 1;
+            if s.embed == 3 {
+                r.entry = 1;
+            }
+            // skipped tokens anywhere must not change the grouping
+            if !g.skip.is_empty() && i % 3 == 0 {
+                r.tokens = inputs::sprinkle(&r.tokens, g, d, 3, false);
+            }
         }
         out
     }
@@ -492,25 +572,43 @@ impl LabProp for P07 {
             return Ok(());
         }
         let s = spec_from_grammar(g).unwrap();
-        // all trees of this very string: enumerate with the operator count of the string
-        let n_ops = req.tokens.iter().filter(|t| s.branches.iter().any(|b| b.ops.contains(t))).count();
-        let n_par = req.tokens.iter().filter(|t| **t == s.lp).count();
-        let mut memo = BTreeMap::new();
-        let all: Vec<E> = exactly(&s, n_ops, n_par, &mut memo, 200_000).into_iter().filter(|e| e.tokens(&s) == req.tokens).collect();
-        let good: Vec<&E> = all.iter().filter(|e| correct(&s, e)).collect();
-        if good.len() != 1 {
-            ev.exclude(&format!("INTERNAL: oracle finds {} precedence-correct trees", good.len()));
-            ev.label("internal_oracle_not_unique");
-            return Ok(());
+        let toks = inputs::strip_trivia(&req.tokens, g);
+        // the expressions of the input (one, or one per statement)
+        let pieces: Vec<Vec<usize>> = match s.semi {
+            Some(semi) if s.embed == 1 => toks.split(|t| *t == semi).filter(|p| !p.is_empty()).map(|p| p.to_vec()).collect(),
+            _ => vec![toks.clone()],
+        };
+        let mut chosen: Vec<E> = vec![];
+        let mut all_len = 0;
+        for piece in &pieces {
+            // all trees of this very string: enumerate with the operator count of the string
+            let n_ops = piece.iter().filter(|t| s.branches.iter().any(|b| b.ops.contains(t))).count();
+            let n_par = piece.iter().filter(|t| **t == s.lp).count();
+            let mut memo = BTreeMap::new();
+            let all: Vec<E> = exactly(&s, n_ops, n_par, &mut memo, 200_000).into_iter().filter(|e| e.tokens(&s) == *piece).collect();
+            let good: Vec<&E> = all.iter().filter(|e| correct(&s, e)).collect();
+            if good.len() != 1 {
+                ev.exclude(&format!("INTERNAL: oracle finds {} precedence-correct trees", good.len()));
+                ev.label("internal_oracle_not_unique");
+                return Ok(());
+            }
+            all_len += all.len();
+            chosen.push(good[0].clone());
         }
-        let expected = good[0].expected_tree(&s);
-        if good[0].n_ops() >= 2 {
+        let all = vec![(); all_len];
+        let expected = expected_embedded(&s, &chosen);
+        if chosen.iter().any(|e| e.n_ops() >= 2) {
             ev.nontrivial(&format!("{:?}{:?}", g, req.tokens));
+        }
+        ev.label(&format!("embedding:{}", ["s: e", "s: (e SEMI)*", "start e", "part e"][s.embed as usize]));
+        if toks.len() != req.tokens.len() {
+            ev.label("with_skipped_tokens");
         }
         ev.label_n("trees_enumerated", all.len() as u64);
         // self-check of the interpreter's precedence climbing
         let never = |_: &str, _: u32, _: usize| false;
-        if let Outcome::Accept { tree, .. } = Interp::new(g, info, &req.tokens, 0, &never).run(g.start, false) {
+        let entry_rule = if req.entry == 0 { g.start } else { g.parts[req.entry - 1] };
+        if let Outcome::Accept { tree, .. } = Interp::new(g, info, &toks, req.entry, &never).run(entry_rule, req.entry != 0) {
             if tree != expected {
                 ev.label("internal_interpreter_disagrees_with_enumerator");
                 ev.exclude("INTERNAL: interpreter disagrees with enumerator");
@@ -518,10 +616,10 @@ impl LabProp for P07 {
                 ev.label("interpreter_selfcheck_ok");
             }
         } else {
-            ev.label("internal_interpreter_rejects");
+            ev.label(&format!("internal_interpreter_rejects:embed{}", s.embed));
         }
         if !rep.diags.is_empty() {
-            return Err((sig_of("spurious", &rep.diags[0].2), format!("valid expression [{}] draws {:?}", inputs::show(g, &req.tokens), rep.diags[0])));
+            return Err((sig_of("spurious", &rep.diags[0].2), format!("valid expression [{}] (entry {}) draws {:?}", inputs::show(g, &req.tokens), req.entry, rep.diags[0])));
         }
         let got = interp::strip_reply_tree(g, rep.tree.as_ref().unwrap());
         if got != expected {
